@@ -146,6 +146,22 @@ class WriteOnlySink(_Logged):
         raise AttributeError(f"write-only sink has no {name!r}")
 
 
+class CountingSink(WriteOnlySink):
+    """A non-seekable output that can report its position (a byte-counting upload / pipe wrapper, an
+    fsspec-style write-mode file): ``tell()`` works and is already non-zero when the container starts,
+    because the caller has sent a preamble through the same object."""
+
+    def __init__(self, preamble=b"PREAMBLE"):
+        super().__init__()
+        self._buf += preamble
+        self.preamble = len(preamble)
+        self.flushed = len(self._buf)
+
+    def tell(self):
+        self._l("tell", None, len(self._buf))
+        return len(self._buf)
+
+
 class SimFile(_Logged):
     """Seekable in-memory file with 'w+b' or 'a+b' semantics (in append mode every
     write lands at the end regardless of the position, as POSIX O_APPEND does)."""
